@@ -56,6 +56,13 @@ func RunSelftest(args []string) int {
 		fmt.Println(strings.Repeat("-", 60))
 	}
 	fmt.Printf("cisco selftest: ok=%d unsupported=%d bad=%d\n", ok, uns, len(bad))
+	ok2, uns2, bad2 := SelftestPanos()
+	for _, b := range bad2 {
+		fmt.Println(b)
+		fmt.Println(strings.Repeat("-", 60))
+	}
+	fmt.Printf("panos selftest: ok=%d unsupported=%d bad=%d\n", ok2, uns2, len(bad2))
+	bad = append(bad, bad2...)
 	_ = core.VerifDir
 	if len(bad) > 0 {
 		return 1
